@@ -550,6 +550,14 @@ func (x *c06ctx) evalUniq(c c06case) {
 	}
 	site := "uniq/" + x.mode(c.Cfg)
 	first := ""
+	// vacuity counters: what the case demands according to the reference model (counted before the run, whatever the
+	// pipeline answers)
+	if len(c06model(c.Recs, c.Cfg)) < len(c.Recs) {
+		r.Count("runs_with_a_merge", 1)
+	}
+	if c.Cfg.NoSingleton && len(c06model(c.Recs, c.Cfg)) < len(c06model(c.Recs, c06cfg{Cat: c.Cfg.Cat})) {
+		r.Count("runs_dropping_a_singleton", 1)
+	}
 	for rep := 0; rep < reps; rep++ {
 		in := make(obiseq.BioSequenceSlice, len(c.Recs))
 		for i, rc := range c.Recs {
@@ -569,12 +577,6 @@ func (x *c06ctx) evalUniq(c c06case) {
 		if rep == 0 {
 			first = canon
 			r.State(fmt.Sprintf("cat=%v merge=%v ns=%v|%s", c.Cfg.Cat, c.Cfg.Merge, c.Cfg.NoSingleton, canon))
-			if len(o.recs) < len(c.Recs) {
-				r.Count("runs_with_a_merge", 1)
-			}
-			if c.Cfg.NoSingleton && len(c06model(c.Recs, c.Cfg)) < len(c06model(c.Recs, c06cfg{Cat: c.Cfg.Cat})) {
-				r.Count("runs_dropping_a_singleton", 1)
-			}
 		} else if canon != first {
 			r.Count("nondeterministic_configurations", 1)
 		}
@@ -588,6 +590,12 @@ func (x *c06ctx) evalRoundTrip(c c06case) {
 	in := make(obiseq.BioSequenceSlice, len(c.Recs))
 	for i, rc := range c.Recs {
 		in[i] = c06build(i, rc, cfg.Parsed)
+	}
+	for _, cl := range c06model(c.Recs, cfg) {
+		if len(cl.Stats) > 1 { // demerge has a class to split (reference model; counted whatever the tools answer)
+			r.Count("roundtrips_with_a_split", 1)
+			break
+		}
 	}
 	o1 := c06runUniq(in, cfg)
 	r.Eval(1)
@@ -628,9 +636,6 @@ func (x *c06ctx) evalRoundTrip(c c06case) {
 	if strings.Join(gotD, " ; ") != strings.Join(wantD, " ; ") {
 		r.Violate("demerge/records", fmt.Sprintf("%s text=%v: uniq gave {%s}; demerge gave {%s} want {%s}", c06caseString(c), c.Text,
 			canon1, strings.Join(gotD, " ; "), strings.Join(wantD, " ; ")), c)
-	}
-	if len(gotD) > len(obs1) {
-		r.Count("roundtrips_with_a_split", 1)
 	}
 	mid2 := o2.recs
 	if c.Text {
@@ -1237,6 +1242,7 @@ func TestVerifC06(t *testing.T) {
 	var from c06pos
 	var skip []c06pos
 	restarts := 0
+	stuckAt := c06pos{-1, -1} // resume point of the last death between two cases
 	for {
 		os.Remove(resPath)
 		os.Remove(lastPath)
@@ -1289,6 +1295,12 @@ func TestVerifC06(t *testing.T) {
 		if werr == nil && ok && !done {
 			restarts++
 			r.Count("child_restarts_after_hang", 1)
+			if deadline > 0 && time.Since(start).Seconds() > deadline {
+				// (a tree under test whose cases hang one after the other: every new child would get one more second,
+				// run up to its next hang and spend the watchdog time there - for ever)
+				r.Cap("internal deadline reached")
+				break
+			}
 			continue
 		}
 		// the child died: which case was it running?
@@ -1299,11 +1311,21 @@ func TestVerifC06(t *testing.T) {
 		if i := bytes.IndexByte(lb, '\n'); i >= 0 {
 			lb = lb[:i]
 		}
-		if json.Unmarshal(lb, &last) != nil || killed || (ok && last.Pos.less(from)) {
+		hasCase := json.Unmarshal(lb, &last) == nil
+		fn, excerpt := c06crashSite(errb.String())
+		// the child had already checkpointed a position behind its last case: it died between two cases
+		between := hasCase && ok && last.Pos.less(from)
+		if between && !killed && fn != "unknown" && stuckAt == from {
+			// twice at the same place between two cases (already reported once): no progress possible
+			r.Cap("the child process dies repeatedly between two cases: the enumeration stops here")
+			break
+		}
+		if !hasCase || (between && !killed && fn == "unknown") {
+			// before its first case / between two cases without any Go crash report: not something a case of the
+			// tree under test did
 			t.Logf("child ended with %v (killed=%v) without an attributable case; stderr tail:\n%s", werr, killed, errb.String())
 			t.Fatalf("C06 harness: child process failed outside a case")
 		}
-		fn, excerpt := c06crashSite(errb.String())
 		mode := "memory"
 		if last.Case.Cfg.Disk {
 			mode = "disk"
@@ -1313,11 +1335,24 @@ func TestVerifC06(t *testing.T) {
 			site = last.Case.X.site()
 		}
 		r.Eval(1)
-		r.Violate(site+"/crash:"+fn, fmt.Sprintf("%s: the process dies: %s", c06caseString(last.Case), excerpt), last.Case)
+		switch {
+		case killed:
+			// neither finished nor checkpointed long after the deadline: the case it was running (or goroutines
+			// that case left behind) keeps the process busy
+			r.Violate(site+"/hang:process-killed", fmt.Sprintf("%s: the process running this case neither ended nor reached its next checkpoint %.0f s after the deadline and was killed", c06caseString(last.Case), 180.0), last.Case)
+		case between:
+			// a goroutine left behind by an earlier case (the last one is named) brought the process down later
+			stuckAt = from
+			r.Violate(site+"/crash-after-the-case:"+fn, fmt.Sprintf("%s: the process dies after the case had delivered its output: %s", c06caseString(last.Case), excerpt), last.Case)
+		default:
+			r.Violate(site+"/crash:"+fn, fmt.Sprintf("%s: the process dies: %s", c06caseString(last.Case), excerpt), last.Case)
+		}
 		if replay {
 			break
 		}
-		skip = append(skip, last.Pos)
+		if !between {
+			skip = append(skip, last.Pos)
+		}
 		// keep only skip positions not before the resume point
 		kept := skip[:0]
 		for _, p := range skip {
